@@ -96,6 +96,6 @@ func nontrivial(c, res string) bool {
 }
 
 func main() {
-	lib.Main(lib.Prop{ID: "C17", Gen: gen, Run: alloclib.Run, Oracle: oracle, Nontrivial: nontrivial,
+	lib.Main(lib.Prop{ID: "C17", Gen: gen, Run: alloclib.Run, Oracle: oracle, Nontrivial: nontrivial, Neighbours: alloclib.Neighbours,
 		PanicClass: func(v interface{}) string { return "other" }})
 }
